@@ -160,6 +160,13 @@ def constant_casts():
         _t("export function f(float a) -> float { float x = a; ++x; x++; return x + 1; }", "affix constant and literal"),
         _t("export function f(float3 a) -> float3 { return a * 2 + a / 4; }", "vector scale by int literal"),
         _t("export function f(float3x3 m) -> float3x3 { return m * 2; }", "matrix scale by int literal"),
+        # integer literals that single precision cannot hold, in float context (the cast of the literal is folded)
+        _t("export function f(float a) -> float { return 16777217 - a; }", "large int literal minus float"),
+        _t("export function f(float a) -> int { return (a < 16777217) + (a == 16777217) * 2 + (16777217 <= a) * 4; }", "large int literal compared with float"),
+        _t("export function f(float a) -> float { return a + 2147483647 - 2147483520; }", "int max literal in float context"),
+        _t("export function f(float a) -> float { float x = a * 123456789; return x - 123456792 * a; }", "nine digit literals times float", small=True),
+        _t("export function f(float a) -> float3 { return float3(16777217, 33554433, a) - float3(16777216, 33554432, 0); }", "large int literals in float constructor"),
+        _t("function g(float p) -> float { return p - 16777216.0; }\nexport function f(float a) -> float { return g(16777217) + a; }", "large int literal to float parameter"),
         # narrowing constants: the unoptimised build is the reference
         _t("function g(int p) -> int { return p * 2; }\nexport function f(int a) -> int { return g(1.5) + a; }", "float literal to int parameter", ["narrow"]),
         _t("function g(int p) -> int { return p * 2; }\nexport function f(int a) -> int { return g(0.0 - 1.5) + a; }", "negative float expr to int parameter", ["narrow"]),
